@@ -47,6 +47,7 @@ class Ctx:
         os.makedirs(self.work)
         self.tlc_runs = []
         self.records = 0
+        self.events = 0
         self.nontrivial = set()
         self.failures = []      # dicts: id, clause, (module)
         self.samples = []
@@ -187,7 +188,10 @@ class Ctx:
                             self.samples.append(_trim(rec))
             if v.get("n") != nrec:
                 raise MachineryError("validator consumed %s of %d records in %s" % (v.get("n"), nrec, sh))
-            self.records += nrec
+            if count:
+                self.records += nrec
+            else:
+                self.events += nrec
             for b in v.get("bad", []):
                 self.failures.append({"id": b[0], "clause": b[1], "module": module})
             for k, n in (v.get("cnt") or {}).items():
@@ -261,6 +265,7 @@ class Ctx:
             "rule": self.rule,
             "exhaustive": bool(self.exhaustive),
             "clause_evaluations": self.clause_counts,
+            "trace_events_validated": self.events,
             "tlc_runs": [{k: r[k] for k in ("module", "cfg", "rc", "generated", "distinct", "depth", "wall_s")}
                          for r in self.tlc_runs if not r["tag"].count(".ndjson")] +
                         [{"module": m, "shards": n, "generated": g, "distinct": d} for (m, n, g, d) in self._shard_summary()],
